@@ -323,9 +323,13 @@ func c19PhConfigured(r *rand.Rand) Case {
 	var rep *analytics.PlaceholderResolutionReport
 	seen := map[string]bool{}
 	pn := guard(func() {
-		pb := analytics.NewPlaceholderResolverBuilder().WithKeyFilter(pred)
+		// a setting given twice: the one given last counts (also for the matcher and the callbacks)
+		pb := analytics.NewPlaceholderResolverBuilder().
+			WithKeyFilter(func(s string) bool { return s == "only-this-key" }).
+			OnPlaceholderEncountered(func(string, string) { panic("callback that was replaced before Build") }).
+			WithKeyFilter(pred)
 		if matcher != nil {
-			pb = pb.WithPlaceholderMatcher(matcher)
+			pb = pb.WithPlaceholderMatcher(func(string) bool { return false }).WithPlaceholderMatcher(matcher)
 		}
 		pb = pb.OnPlaceholderEncountered(func(k, v string) {
 			evs = append(evs, "PhSeen "+gStr(k)+" "+gStr(v))
